@@ -480,3 +480,209 @@ Proof. split; [reflexivity|]. split; vm_compute; reflexivity. Qed.
 Theorem english_loop : forall ordinal z, english_ok ordinal (Z.abs_N z) = true ->
   go_english src_tables ordinal (dec_text z) = std_english ordinal z.
 Proof. destruct src_checks as [H1 [H2 H3]]. exact (english_loop_T src_tables H1 H2 H3). Qed.
+
+(* ---- 6. the converse: outside english_ok the loop writes something else ------------------------------------- *)
+(* the vocabulary of the definition: every word of std_english is one of these *)
+Definition vocab : list text := Eval vm_compute in
+  tx "zero" :: tx "negative" :: all_words ++ map ordinal_word (tx "zero" :: all_words).
+Lemma vocab_is : vocab = tx "zero" :: tx "negative" :: all_words ++ map ordinal_word (tx "zero" :: all_words).
+Proof. vm_compute. reflexivity. Qed.
+Definition inv (w : text) : bool := existsb (text_eqb w) vocab.
+Lemma inv_in : forall w, In w vocab -> inv w = true.
+Proof. intros w H. unfold inv. apply existsb_exists. exists w. split; [exact H | apply text_eqb_refl]. Qed.
+Lemma is_word_in : forall w, is_word w = true -> In w all_words.
+Proof. intros w H. unfold is_word in H. apply existsb_exists in H. destruct H as [x [Hx E]]. apply text_eqb_eq in E. subst. exact Hx. Qed.
+Lemma wordish_inv : forall w, wordish w = true -> inv w = true.
+Proof.
+  intros w Hw. apply inv_in. rewrite vocab_is. unfold wordish in *.
+  apply orb_true_iff in Hw. destruct Hw as [Hw | Hw]; [apply orb_true_iff in Hw; destruct Hw as [Hw | Hw]|].
+  - right. right. apply in_or_app. left. apply is_word_in. exact Hw.
+  - left. apply text_eqb_eq in Hw. auto.
+  - right. left. apply text_eqb_eq in Hw. auto.
+Qed.
+Lemma ordinal_inv : forall w, (w = tx "zero" \/ is_word w = true) -> inv (ordinal_word w) = true.
+Proof.
+  intros w Hw. apply inv_in. rewrite vocab_is. right. right. apply in_or_app. right. apply in_map.
+  destruct Hw as [-> | Hw]; [left; reflexivity | right; apply is_word_in; exact Hw].
+Qed.
+Lemma ordinal_differs_all : forallb (fun w => negb (text_eqb (ordinal_word w) w)) (tx "zero" :: all_words) = true.
+Proof. vm_compute. reflexivity. Qed.
+Lemma ordinal_differs : forall w, (w = tx "zero" \/ is_word w = true) -> ordinal_word w <> w.
+Proof.
+  intros w Hw E. pose proof ordinal_differs_all as H. rewrite forallb_forall in H.
+  specialize (H w ltac:(destruct Hw as [-> | Hw]; [left; reflexivity | right; apply is_word_in; exact Hw])).
+  rewrite E, text_eqb_refl in H. discriminate.
+Qed.
+Lemma forallb_existsb_neg : forall (f : text -> bool) l, forallb f l = true -> existsb (fun w => negb (f w)) l = true -> False.
+Proof.
+  intros f l H1 H2. apply existsb_exists in H2. destruct H2 as [x [Hx Hn]].
+  rewrite forallb_forall in H1. rewrite (H1 x Hx) in Hn. discriminate.
+Qed.
+(* the words of the definition, cardinal or ordinal, are in the vocabulary, have no blank, and there is one at least *)
+Lemma std_words_shape : forall (ordinal : bool) z ws, (if ordinal then ordinal_words z else cardinal_words z) = Some ws ->
+  ws <> [] /\ forallb inv ws = true /\ forallb no_space ws = true /\ hd [] ws <> [].
+Proof.
+  intros ordinal z ws H.
+  assert (G : forall cw, cardinal_words z = Some cw ->
+              cw <> [] /\ forallb inv cw = true /\ forallb no_space cw = true /\ hd [] cw <> []).
+  { intros cw Hc. destruct (cardinal_words_shape z cw Hc) as [Hne [Hw _]]. split; [exact Hne|].
+    rewrite forallb_forall in Hw. split; [|split].
+    - apply forallb_forall. intros x Hx. apply wordish_inv. apply Hw. exact Hx.
+    - apply forallb_forall. intros x Hx. apply (wordish_no_space x (Hw x Hx)).
+    - destruct cw as [|w cw]; [contradiction|]. cbn [hd]. intros E. specialize (Hw w (or_introl eq_refl)). subst w. discriminate. }
+  destruct ordinal; [|exact (G ws H)].
+  unfold ordinal_words in H. destruct (cardinal_words z) as [cw|] eqn:Hc; [|discriminate]. inversion H; subst ws. clear H.
+  destruct (G cw eq_refl) as [Hne [Hi [Hn Hh]]]. destruct (cardinal_words_shape z cw Hc) as [_ [Hw Hlast]].
+  assert (Hlw : wordish (last cw []) = true).
+  { rewrite forallb_forall in Hw. apply Hw. destruct cw as [|x l] using rev_ind; [contradiction|].
+    rewrite last_last. apply in_or_app. right. left. reflexivity. }
+  split; [destruct (removelast cw); discriminate|]. split; [|split].
+  - rewrite forallb_app, forallb_removelast by exact Hi. cbn [forallb]. rewrite (ordinal_inv _ Hlast). reflexivity.
+  - rewrite forallb_app, forallb_removelast by exact Hn. cbn [forallb].
+    rewrite (proj2 (wordish_no_space _ Hlw)). reflexivity.
+  - destruct cw as [|w cw]; [contradiction|]. destruct cw as [|w2 cw].
+    + cbn [removelast app hd last]. intros E. cbn [last] in Hlast.
+      assert (Hin : In w (tx "zero" :: all_words)) by (destruct Hlast as [-> | Hl]; [left; reflexivity | right; apply is_word_in; exact Hl]).
+      assert (Hall : forallb (fun w => negb (text_eqb (ordinal_word w) [])) (tx "zero" :: all_words) = true) by (vm_compute; reflexivity).
+      rewrite forallb_forall in Hall. specialize (Hall w Hin). rewrite E in Hall. discriminate.
+    + cbn [removelast app hd]. cbn [hd] in Hh. exact Hh.
+Qed.
+Lemma join_inj : forall a b, a <> [] -> b <> [] -> forallb no_space a = true -> forallb no_space b = true ->
+  join [sp] a = join [sp] b -> a = b.
+Proof.
+  intros a b Ha Hb Hna Hnb E.
+  destruct a as [|w ws]; [contradiction|]. destruct b as [|v vs]; [contradiction|].
+  cbn [forallb] in Hna, Hnb. apply andb_true_iff in Hna. apply andb_true_iff in Hnb.
+  destruct Hna as [H1 H2]. destruct Hnb as [H3 H4].
+  pose proof (split_join ws w [] H1 H2) as S1. pose proof (split_join vs v [] H3 H4) as S2.
+  rewrite E in S1. rewrite S1 in S2. cbn [rev app] in S2. exact S2.
+Qed.
+
+(* three more finite checks over the tables: the words of the loop have no blank; a group outside `tok` has a word that
+   is not in the vocabulary of the definition (the empty word, "quantillion"); where the ordinal condition fails on a group
+   inside `tok` (it ends in 00) the ordinal tables are not used *)
+Definition chkN (T : tables) : bool :=
+  forallb (fun k => forallb (fun j => forallb no_space (gw_rev T k false (N.of_nat j)) && forallb no_space (gw_rev T k true (N.of_nat j)))
+                            (seq 0 1000)) (seq 0 22).
+Definition badw (T : tables) (w : text) : bool := text_eqb w [] || text_eqb w (tnth (t_triples T) 6).
+Definition chkB (T : tables) : bool :=
+  negb (inv []) && negb (inv (tnth (t_triples T) 6)) &&
+  forallb (fun k => forallb (fun j => if tok k (N.of_nat j) then true
+                                      else existsb (badw T) (gw_rev T k false (N.of_nat j)) &&
+                                           existsb (badw T) (gw_rev T k true (N.of_nat j)))
+                            (seq 0 1000)) (seq 0 22).
+Definition chkD (T : tables) : bool :=
+  forallb (fun j => implb (tok 0 (N.of_nat j) && negb (ordt (N.of_nat j)))
+                          (texts_eq (gw_rev T 0 true (N.of_nat j)) (gw_rev T 0 false (N.of_nat j)))) (seq 0 1000).
+Lemma chkN_fact : forall T, chkN T = true -> forall k t ord, k < 22 -> (t < 1000)%N -> forallb no_space (gw_rev T k ord t) = true.
+Proof.
+  intros T H k t ord Hk Ht. unfold chkN in H. rewrite forallb_forall in H.
+  specialize (H k ltac:(apply in_seq; lia)). rewrite forallb_forall in H.
+  specialize (H (N.to_nat t) ltac:(apply in_seq; lia)). rewrite N2Nat.id in H.
+  apply andb_true_iff in H. destruct H. destruct ord; assumption.
+Qed.
+Lemma chkB_fact : forall T, chkB T = true -> forall k t ord, k < 22 -> (t < 1000)%N -> tok k t = false ->
+  existsb (fun w => negb (inv w)) (gw_rev T k ord t) = true.
+Proof.
+  intros T H k t ord Hk Ht Hok. unfold chkB in H.
+  apply andb_true_iff in H. destruct H as [H0 H]. apply andb_true_iff in H0. destruct H0 as [H0 H6].
+  rewrite forallb_forall in H.
+  specialize (H k ltac:(apply in_seq; lia)). rewrite forallb_forall in H.
+  specialize (H (N.to_nat t) ltac:(apply in_seq; lia)). rewrite N2Nat.id, Hok in H.
+  apply andb_true_iff in H.
+  assert (G : existsb (badw T) (gw_rev T k ord t) = true) by (destruct H; destruct ord; assumption).
+  apply existsb_exists in G. destruct G as [w [Hw Hb]]. apply existsb_exists. exists w. split; [exact Hw|].
+  unfold badw in Hb. apply orb_true_iff in Hb. destruct Hb as [Hb | Hb]; apply text_eqb_eq in Hb; subst w; assumption.
+Qed.
+Lemma chkD_fact : forall T, chkD T = true -> forall t, (t < 1000)%N -> tok 0 t = true -> ordt t = false ->
+  gw_rev T 0 true t = gw_rev T 0 false t.
+Proof.
+  intros T H t Ht Hok Ho. unfold chkD in H. rewrite forallb_forall in H.
+  specialize (H (N.to_nat t) ltac:(apply in_seq; lia)). rewrite N2Nat.id, Hok, Ho in H. apply texts_eq_eq. exact H.
+Qed.
+Lemma ggroup_no_space : forall T, chkN T = true -> forall ts k ord, k + List.length ts <= 22 ->
+  Forall (fun t => (t < 1000)%N) ts -> forallb no_space (ggroup T k ord ts) = true.
+Proof.
+  intros T HN. induction ts as [|t ts IH]; intros k ord Hk Hts; [reflexivity|].
+  inversion Hts as [|? ? Ht Hts']; subst. cbn [List.length] in Hk. cbn [ggroup].
+  rewrite forallb_app, IH by (try assumption; lia). rewrite (chkN_fact T HN) by (try assumption; lia). reflexivity.
+Qed.
+Lemma ggroup_bad : forall T, chkB T = true -> forall ts k ord, k + List.length ts <= 22 ->
+  Forall (fun t => (t < 1000)%N) ts -> gok_list k ts = false -> existsb (fun w => negb (inv w)) (ggroup T k ord ts) = true.
+Proof.
+  intros T HB. induction ts as [|t ts IH]; intros k ord Hk Hts Hok; [discriminate|].
+  inversion Hts as [|? ? Ht Hts']; subst. cbn [List.length] in Hk. cbn [ggroup gok_list] in *.
+  rewrite existsb_app. destruct (tok k t) eqn:Et.
+  - cbn [andb] in Hok. rewrite IH by (try assumption; lia). reflexivity.
+  - rewrite (chkB_fact T HB) by (try assumption; lia). apply orb_true_r.
+Qed.
+
+Theorem english_loop_converse_T : forall T, List.length (t_triples T) = 22 ->
+  chkA T = true -> chkN T = true -> chkB T = true -> chkD T = true ->
+  forall ordinal z, english_ok ordinal (Z.abs_N z) = false -> go_english T ordinal (dec_text z) <> std_english ordinal z.
+Proof.
+  intros T HL HA HN HB HD ordinal z Hok Heq.
+  destruct (Z.eq_dec z 0) as [-> | Hz]. { destruct ordinal; vm_compute in Hok; discriminate. }
+  unfold english_ok in Hok. set (n := Z.abs_N z) in *.
+  rewrite go_english_words in Heq by exact Hz. fold n in Heq.
+  destruct (n <? ten66)%N eqn:Hlt; [apply N.ltb_lt in Hlt | apply N.ltb_ge in Hlt].
+  2:{ (* beyond the scale words the definition has no text, the loop has one *)
+      rewrite english_domain in Heq by (subst n; lia). discriminate. }
+  destruct (triples_facts n ltac:(lia)) as [ts' [E [Hl [Hb Hgl]]]].
+  rewrite Hgl in Hok. clear Hgl. cbn [andb] in Hok.
+  pose proof (cardinal_words_pos z Hz Hlt) as Hc. fold n in Hc.
+  change (if ordinal then t_ordone T else t_one T) with (sel_one T ordinal) in Heq.
+  change (if ordinal then t_ordteen T else t_teen T) with (sel_teen T ordinal) in Heq.
+  rewrite GL_ggroup0 in Heq by (rewrite E, HL; cbn [List.length]; lia).
+  unfold std_english in Heq.
+  destruct (if ordinal then ordinal_words z else cardinal_words z) as [ws|] eqn:Hws; [|discriminate].
+  destruct (std_words_shape ordinal z ws Hws) as [Hne [Hinv [Hns _]]].
+  apply (f_equal (fun o : option text => match o with Some t => t | None => [] end)) in Heq. cbv beta iota in Heq.
+  set (negw := if (z <? 0)%Z then [tx "negative"] else []) in *.
+  assert (Hnsg : forallb no_space (negw ++ ggroup T 0 ordinal (triples_of n)) = true).
+  { rewrite forallb_app. rewrite (ggroup_no_space T HN) by (try assumption; rewrite E; cbn [List.length]; lia).
+    subst negw. destruct (z <? 0)%Z; reflexivity. }
+  destruct (gok_list 0 (triples_of n)) eqn:Hg.
+  - (* every group is inside tok: it is the ordinal of a number that ends in 00 *)
+    cbn [andb] in Hok. destruct ordinal; [|discriminate]. cbn [negb orb] in Hok.
+    replace (n =? 0)%N with false in Hok by (symmetry; apply N.eqb_neq; lia). cbn [orb] in Hok.
+    rewrite E in *. cbn [gok_list] in Hg. apply andb_true_iff in Hg. destruct Hg as [Hg0 Hg1].
+    inversion Hb as [|? ? Ht Hts']; subst.
+    assert (Hord : ordt (n mod 1000) = false).
+    { unfold ordt. replace ((n mod 1000) mod 100)%N with (n mod 100)%N by lia.
+      replace ((n mod 1000) mod 10)%N with (n mod 10)%N by lia. exact Hok. }
+    cbn [ggroup] in Heq, Hnsg. rewrite (chkD_fact T HD) in Heq, Hnsg by assumption.
+    change (ggroup T 1 false ts' ++ gw_rev T 0 false (n mod 1000)) with (ggroup T 0 false ((n mod 1000)%N :: ts')) in Heq, Hnsg.
+    rewrite (ggroup_card T HA) in Heq, Hnsg by (try assumption; cbn [gok_list List.length]; try lia; rewrite Hg0, Hg1; reflexivity).
+    remember (negw ++ group_words 0 ((n mod 1000)%N :: ts')) as cw eqn:Ecw.
+    unfold ordinal_words in Hws. rewrite Hc in Hws. injection Hws as Hws.
+    destruct (cardinal_words_shape z cw Hc) as [Hcne [_ Hlast]].
+    apply join_inj in Heq; try assumption.
+    rewrite <- Hws in Heq. apply (f_equal (fun l => last l [])) in Heq. cbv beta in Heq. rewrite last_last in Heq.
+    exact (ordinal_differs _ Hlast (eq_sym Heq)).
+  - (* some group is outside tok: the loop writes a word the definition never writes *)
+    pose proof (ggroup_bad T HB (triples_of n) 0 ordinal ltac:(rewrite E; cbn [List.length]; lia) Hb Hg) as Hbad.
+    assert (Hbad' : existsb (fun w => negb (inv w)) (negw ++ ggroup T 0 ordinal (triples_of n)) = true).
+    { rewrite existsb_app, Hbad. apply orb_true_r. }
+    apply join_inj in Heq; try assumption.
+    + rewrite Heq in Hbad'. exact (forallb_existsb_neg inv ws Hinv Hbad').
+    + intros E0. rewrite E0 in Hbad'. discriminate.
+Qed.
+
+(* with the tables as they stand in the source: both directions *)
+Lemma src_checks_converse : chkN src_tables = true /\ chkB src_tables = true /\ chkD src_tables = true.
+Proof. split; [|split]; vm_compute; reflexivity. Qed.
+Theorem english_loop_converse : forall ordinal z, english_ok ordinal (Z.abs_N z) = false ->
+  go_english src_tables ordinal (dec_text z) <> std_english ordinal z.
+Proof.
+  destruct src_checks as [H1 [H2 _]]. destruct src_checks_converse as [H3 [H4 H5]].
+  exact (english_loop_converse_T src_tables H1 H2 H3 H4 H5).
+Qed.
+Theorem english_loop_exact : forall ordinal z,
+  go_english src_tables ordinal (dec_text z) = std_english ordinal z <-> english_ok ordinal (Z.abs_N z) = true.
+Proof.
+  intros ordinal z. split.
+  - intros H. destruct (english_ok ordinal (Z.abs_N z)) eqn:E; [reflexivity|].
+    exfalso. exact (english_loop_converse ordinal z E H).
+  - apply english_loop.
+Qed.
